@@ -125,6 +125,36 @@ def check_idx_wide(ctx, mem, N, stride):
     ctx.expect(paths, ret=1, abort=1)
 
 
+def check_idx_adversarial(ctx, mem, N, stride):
+    """the index lives in sandbox memory and the sandbox may rewrite it between any two of rlbox's reads: whatever value
+    passes the bounds check is the value that designates the element"""
+    from specs.C09 import adversarial
+    adversarial(ctx)
+    k = "k_%s_int_%d_tvint" % (mem, N)
+    base = ctx.sandbox_base(32)
+    size = 1 << 32
+    args = [base]
+    if mem == "app":
+        arr = ctx.buffer(N * 4, name="arr")
+        args.append(arr)
+    else:
+        p = ctx.sym("p", 64)
+        ctx.assume(z3.UGE(p, base), z3.ULE(p - base, BV(size - N * stride, 64)))
+        args.append(p)
+    cell = ctx.sym("cell", 64)
+    ctx.assume(z3.UGE(cell, base), z3.ULE(cell - base, BV(size - 4, 64)))
+    args.append(cell)
+    paths = ctx.run(k, args)
+    for q in paths:
+        if q.status == "ret":
+            ctx.require(q, z3.And(z3.ULT(q.ret, BV(N * stride, 64)), z3.URem(q.ret, BV(stride, 64)) == 0),
+                        "the designated element lies inside the array for every schedule of sandbox writes to the index")
+            if [e for e in q.events if e[0] == "app-oob"]:
+                ctx.fail(q, "access outside the array object")
+    ctx.only(paths, "ret", "abort")
+    ctx.expect(paths, ret=1, abort=1)
+
+
 def check_2d(ctx, mem, etag, N, M, stride, log):
     k = "k2_%s_%s_%d_%d" % (mem, etag, N, M)
     base = ctx.sandbox_base(log)
@@ -222,6 +252,11 @@ def jobs(tier, seed):
                     dict(name="B32 sbx int[300] idx=schar", fn=check_idx, kw=dict(mem="sbx", etag="int", N=300, itag="schar", stride=4, log=32)),
                     dict(name="B32 sbx char[40000] idx=short", fn=check_idx, kw=dict(mem="sbx", etag="char", N=40000, itag="short", stride=1, log=32))],
                    flags=["-fno-exceptions"]))
+    asrc = [C.PRELUDE, "using S = B32;", kernel_src("app", "int", "int", 3, "tvint"), kernel_src("sbx", "int", "int", 3, "tvint")]
+    out.append(Job("C17_B32_adversarial_index", "\n".join(asrc) + "\n",
+                   [dict(name="B32 app int[3] idx=tainted_volatile<int>, adversarial memory", fn=check_idx_adversarial, kw=dict(mem="app", N=3, stride=4)),
+                    dict(name="B32 sbx int[3] idx=tainted_volatile<int>, adversarial memory", fn=check_idx_adversarial, kw=dict(mem="sbx", N=3, stride=4))],
+                   flags=["-fno-exceptions"], native=False))
     # guest int wider than the application's int: sandbox-resident indices are narrowed
     wsrc = [C.PRELUDE, "using S = B32W;", kernel_src("app", "int", "int", 3, "tvint"), kernel_src("sbx", "int", "int", 3, "tvint")]
     out.append(Job("C17_B32W", "\n".join(wsrc) + "\n", [dict(name="B32W app int[3] idx=tainted_volatile<int> (64-bit guest int)", fn=check_idx_wide, kw=dict(mem="app", N=3, stride=4)),
